@@ -403,6 +403,35 @@ def run_mixed_dtype_operands(res: Results, idx: Index, plugins) -> None:
                     res.violation("R-C01g", site, key, f"{c.name}: `{src(call, 70)}` materialises `{own}` with the dtype of `{other}`; the jax.numpy-level primitive is bound with the caller's raw operands, so an integer array combined with a Python float (jnp.{c.module.rel.rsplit('/', 1)[-1][:-3]}(x_int32, 2.5)) is computed in the integer dtype although abstract_eval promised the promoted dtype", fi.qualname)
                 else:
                     res.ok("R-C01g", site, key, "dtype preference does not come from the other operand alone", fi.qualname)
+    # explicit casts of one operand to ANOTHER operand's own dtype (jnp.clip bounds cast to x's integer dtype)
+    for c, _expr in plugins:
+        if "/plugins/jax/numpy/" not in c.module.rel or c.module.rel.rsplit("/", 1)[-1][:-3] in INT_ONLY_JNP:
+            continue
+        lower = idx.resolve_method(c, "lower")
+        if lower is None:
+            continue
+        unpack = next((st for st in walk_no_nested(lower.node) if isinstance(st, ast.Assign) and isinstance(st.targets[0], ast.Tuple) and len(st.targets[0].elts) >= 2
+                       and all(isinstance(e, ast.Name) for e in st.targets[0].elts) and (dotted(st.value) or "").endswith(".invars")), None)
+        if unpack is None:
+            continue
+        ops = [e.id for e in unpack.targets[0].elts]  # type: ignore[union-attr]
+        du = defuse(lower.node)
+        for call in walk_no_nested(lower.node):
+            if not (isinstance(call, ast.Call) and "cast" in (call_name(call) or "").lower() and len(call.args) >= 3):
+                continue
+            arg_ops = [o for a_ in call.args for o in ops if isinstance(a_, ast.Name) and a_.id == o]
+            if len(arg_ops) != 1:
+                continue
+            own = arg_ops[0]
+            # a dtype-valued argument that derives from exactly one other operand
+            for a_ in call.args:
+                if isinstance(a_, ast.Name) and a_.id not in ops and "dtype" in a_.id.lower():
+                    cl = du.closure({a_.id}) | {a_.id}
+                    srcs = [o for o in ops if o in cl]
+                    if len(srcs) == 1 and srcs[0] != own:
+                        n += 1
+                        key = f"{c.module.rel}::{c.name}::operand-cast-to-other-dtype::{own}"
+                        res.violation("R-C01g", f"{c.module.rel}:{call.lineno}", key, f"{c.name}: `{src(call, 70)}` casts `{own}` to the dtype of `{srcs[0]}` alone; with an integer `{srcs[0]}` and a floating `{own}` (jnp.{c.module.rel.rsplit('/', 1)[-1][:-3]}(x_int32, …float bounds…)) the floating operand is truncated and the result stays integer although JAX promotes", lower.qualname)
     res.analysed["jnp_binary_dtype_preferences"] = n
 
 
